@@ -46,6 +46,8 @@ func replayJson(line []byte, a *Acc) {
 			m = mxj.Map{s: "v"}
 		case "nest":
 			m = mxj.Map{"k": []interface{}{s, map[string]interface{}{s: []interface{}{s}}}}
+		case "object":
+			m = mxj.Map{"object": []interface{}{s}}
 		}
 		one := func(sig, detail string) {
 			// (the whole line is the replay case: some defects only show after an earlier call)
@@ -164,7 +166,7 @@ func replayJsonIn(line []byte, a *Acc) {
 	}
 	defer func() { mxj.JsonUseNumber = false }()
 	orig := l
-	l.Text = strings.NewReplacer("%", "\f", "`", "\u00a0").Replace(l.Text) // placeholders of the specification's alphabet
+	l.Text = strings.NewReplacer("%", "\f", "`", "\u00a0", "@", "\ufeff").Replace(l.Text) // placeholders of the specification's alphabet
 	one := func(sig, detail string) {
 		a.Mis(sig, fmt.Sprintf("input %q (first value: %s): %s", l.Text, l.Kind, detail), orig)
 	}
